@@ -9,7 +9,7 @@ Logs the yields and every CSV file / consumed trace.  No expected values."""
 import os
 import sys
 
-sys.path.insert(0, "/repo")
+sys.path.insert(0, __import__("os").environ.get("VERIF_REPO", "/repo"))
 from fibertree import Fiber  # noqa: E402
 from fibertree.core.metrics import Metrics  # noqa: E402
 from .exec_metrics import read_rows  # noqa: E402
